@@ -40,9 +40,14 @@ fn perrno(e: &subprocess::PopenError) -> Option<i32> {
 
 fn run_one(v: &Value, out: &mut Vec<String>) {
     let detached_cfg = v["detached"].as_bool().unwrap_or(false);
-    let mut p = Popen::create(&["true"], PopenConfig { detached: detached_cfg, setpgid: v["setpgid"].as_bool().unwrap_or(false),
-        ..Default::default() })
-        .expect("spawn true");
+    let mut cfg = PopenConfig { detached: detached_cfg, setpgid: v["setpgid"].as_bool().unwrap_or(false), ..Default::default() };
+    if v["clone_cfg"].as_bool().unwrap_or(false) {
+        // the configuration is a template: what is launched is a clone of it
+        let c = cfg.try_clone().expect("try_clone");
+        drop(cfg);
+        cfg = c;
+    }
+    let p = Popen::create(&["true"], cfg).expect("spawn true");
     let real_pid = p.pid().unwrap() as i32;
     let epoch = unsafe { EPOCH };
     let mut sim = Box::new(PSim::new(real_pid, epoch));
